@@ -7,6 +7,7 @@ import (
 	"fmt"
 	"net/http"
 	"os"
+	"reflect"
 	"sort"
 	"strings"
 
@@ -24,6 +25,7 @@ type httpRow struct {
 	Header string `json:"header"`
 	Body   string `json:"body"`
 	Param  string `json:"param"`
+	Pname  string `json:"pname"`
 	Src    string `json:"src"`
 }
 
@@ -51,18 +53,29 @@ type destB struct {
 	Tagstr string   `json:"tags" form:"tags[]" query:"tags[]"`
 }
 
+type destA1 struct {
+	Name   string   `json:"name" form:"name" query:"name"`
+	Tags   []string `json:"tags" form:"t" query:"t"`
+	Tagstr string   `json:"tags" form:"t" query:"t"`
+}
+type destB1 struct {
+	Name   string   `json:"name" form:"name" query:"name"`
+	Tags   []string `json:"tags" form:"t[]" query:"t[]"`
+	Tagstr string   `json:"tags" form:"t[]" query:"t[]"`
+}
+
 const sent = "SENT"
 
-func tagsParam(p string) string {
+func tagsParam(p, name string) string {
 	switch p {
 	case "single":
-		return "tags=a"
+		return name + "=a"
 	case "repeated":
-		return "tags=a&tags=b"
+		return name + "=a&" + name + "=b"
 	case "suffix-single":
-		return "tags%5B%5D=a"
+		return name + "%5B%5D=a"
 	case "suffix-repeated":
-		return "tags%5B%5D=a&tags%5B%5D=b"
+		return name + "%5B%5D=a&" + name + "%5B%5D=b"
 	}
 	return ""
 }
@@ -102,7 +115,7 @@ func buildRequest(r httpRow) *http.Request {
 		}
 	case "form":
 		// the form is body plus query, as net/http defines it: name comes in the body, tags in the query string
-		query = tagsParam(r.Param)
+		query = tagsParam(r.Param, r.Pname)
 		switch r.Body {
 		case "valid":
 			body = "name=body"
@@ -112,7 +125,7 @@ func buildRequest(r httpRow) *http.Request {
 			body = "name=%zz"
 		}
 	default: // query
-		query = join("name=query", tagsParam(r.Param))
+		query = join("name=query", tagsParam(r.Param, r.Pname))
 		body = `{"name":"body","tags":["b1","b2"]}` // must be ignored
 		if r.Body == "truncated" {
 			body = `{"name":"bo`
@@ -172,29 +185,38 @@ func cmdHTTPTab(args []string) {
 				}()
 				var m z.ZogIssueMap
 				req := buildRequest(r)
-				if !suffix {
-					d := &destA{Name: sent, Tags: []string{sent}, Tagstr: sent}
-					switch variant {
-					case "struct":
-						m = sch.Parse(zhttp.Request(req), d)
-					case "ptr":
-						m = z.Ptr(sch).Parse(zhttp.Request(req), &d)
-					default:
-						m = z.Ptr(sch).NotNil().Parse(zhttp.Request(req), &d)
-					}
-					name, tags, tagstr = d.Name, d.Tags, d.Tagstr
-				} else {
-					d := &destB{Name: sent, Tags: []string{sent}, Tagstr: sent}
-					switch variant {
-					case "struct":
-						m = sch.Parse(zhttp.Request(req), d)
-					case "ptr":
-						m = z.Ptr(sch).Parse(zhttp.Request(req), &d)
-					default:
-						m = z.Ptr(sch).NotNil().Parse(zhttp.Request(req), &d)
-					}
-					name, tags, tagstr = d.Name, d.Tags, d.Tagstr
+				var dt reflect.Type
+				switch {
+				case !suffix && r.Pname == "t":
+					dt = reflect.TypeOf(destA1{})
+				case !suffix:
+					dt = reflect.TypeOf(destA{})
+				case r.Pname == "t":
+					dt = reflect.TypeOf(destB1{})
+				default:
+					dt = reflect.TypeOf(destB{})
 				}
+				dv := reflect.New(dt)
+				dv.Elem().FieldByName("Name").SetString(sent)
+				dv.Elem().FieldByName("Tags").Set(reflect.ValueOf([]string{sent}))
+				dv.Elem().FieldByName("Tagstr").SetString(sent)
+				switch variant {
+				case "struct":
+					m = sch.Parse(zhttp.Request(req), dv.Interface())
+				case "ptr":
+					pp := reflect.New(dv.Type())
+					pp.Elem().Set(dv)
+					m = z.Ptr(sch).Parse(zhttp.Request(req), pp.Interface())
+					dv = pp.Elem()
+				default:
+					pp := reflect.New(dv.Type())
+					pp.Elem().Set(dv)
+					m = z.Ptr(sch).NotNil().Parse(zhttp.Request(req), pp.Interface())
+					dv = pp.Elem()
+				}
+				name = dv.Elem().FieldByName("Name").String()
+				tags = dv.Elem().FieldByName("Tags").Interface().([]string)
+				tagstr = dv.Elem().FieldByName("Tagstr").String()
 				for k, is := range m {
 					if k == "$first" {
 						continue
